@@ -1,7 +1,7 @@
 From Coq Require Import List ZArith Lia Bool.
 Import ListNotations.
 Require Import Base Tree Driver Inl3e Render Props.
-Require QuoteSimDefs QS2Spec2 EolCRDefs EolCR EolCRFull EolCRRenderDefs EolCRRender Uncond C02Full ComposeC03 C05Full C13All Total InlineFuelAll BlankPrefix EolFinalDefs EolFinalGenMain EolCRLFDefs EolCRLFSim EolCRLFGen ChkDocAll ChkDocAll2.
+Require ItemSimDefs ItemSimMain QuoteSimDefs QS2Spec2 EolCRDefs EolCR EolCRFull EolCRRenderDefs EolCRRender Uncond C02Full ComposeC03 C05Full C13All Total InlineFuelAll BlankPrefix EolFinalDefs EolFinalGenMain EolCRLFDefs EolCRLFSim EolCRLFGen ChkDocAll ChkDocAll2.
 Open Scope Z_scope.
 
 (* The properties whose formal statement (Props.v, or the statement file named) is a theorem about the model for everything the
@@ -42,6 +42,10 @@ Proof. exact EolCRLFGen.parseBlocks_crlf_limit. Qed.
 Theorem C09_quote_blocks : QuoteSimDefs.parseBlocks_quote_statement.
 Proof. exact QS2Spec2.parseBlocks_quote. Qed.
 
+(* C09, list-item clause at the block layer *)
+Theorem C09_item_blocks : ItemSimDefs.parseBlocks_item_statement.
+Proof. exact ItemSimMain.parseBlocks_item. Qed.
+
 (* C14, CR clause through the whole pipeline *)
 Theorem C14_cr_parse : forall s, ~ In 13 s ->
   parseFull (EolCRDefs.cr s) = (map (EolCR.mapSrc EolCRDefs.cr) (fst (parseFull s)), snd (parseFull s)).
@@ -65,5 +69,6 @@ Print Assumptions C14_crlf_nobracket.
 Print Assumptions C14_crlf_limit.
 Print Assumptions C17_chkDoc.
 Print Assumptions C09_quote_blocks.
+Print Assumptions C09_item_blocks.
 Print Assumptions C14_cr_parse.
 Print Assumptions C14_cr_render.
